@@ -43,7 +43,7 @@ type c09Scen struct {
 	Clients    [][]*c09Req `json:"clients"`
 	AddRoute   bool        `json:"admin_adds_route"`
 	DelRoute   bool        `json:"admin_removes_route_instead,omitempty"` // the admin task removes POST /a/x instead of adding PUT /a/x
-	Verbs      bool        `json:"custom_verb_routes,omitempty"` // POST /a/y/{id}:cancel and DELETE /a/x:purge are registered too
+	Verbs      bool        `json:"custom_verb_routes,omitempty"`          // POST /a/y/{id}:cancel and DELETE /a/x:purge are registered too
 }
 
 var c09URLs = []string{"/a/x", "/a/y", "/a/y/7", "/b/z", "/a/none", "/a/y/7/", "/a/x/", "/a/y/7/extra/", "/a/y/", "/a/v1.0/items", "/a/v1x0/items", "/a/v1.0/items/", "/b/z+z", "/b/zzz"}
